@@ -22,9 +22,14 @@ TESTED_NOT_PROVED = ["end-to-end invariance of tensions and pressures is evaluat
 IMPORTS = "From Forsys Require Import Model.CaseUtil.\n"
 
 
-def solve_static(spec, fit):
+def solve_static(spec, fit, movie=False):
     fr = impl.frame(spec)
-    f = impl.forsys_of({0: fr})
+    if movie:
+        # the frame is the first of a two-frame movie handed to ForSys(cm=True): the time series then moves every vertex in place by the
+        # (rounded) centre of mass before anything is inferred - one more translation the static result must not notice
+        f = impl.forsys_of({0: fr, 1: impl.frame(spec, 1, 1.0)}, cm=True)
+    else:
+        f = impl.forsys_of({0: fr})
     with impl.quiet():
         f.build_force_matrix(when=0, circle_fit_method=fit, angle_limit=np.inf)
         with impl.capture_solvers() as rec:
@@ -81,14 +86,18 @@ def d1_count(fr, fit):
 
 
 def check_static(res, spec, tr, fit, label, analytic):
-    img = gen.similarity(spec, **tr)
+    img = gen.similarity(spec, **{k: v for k, v in tr.items() if k != "movie"})
     replay = {"spec": {k: spec[k] for k in ("vertices", "edges", "cells", "ifaces", "meta")}, "transform": tr, "fit": fit, "label": label}
+    movie = bool(tr.get("movie"))
+    tr = {k: v for k, v in tr.items() if k != "movie"}
     try:
-        A = solve_static(spec, fit)
-        B = solve_static(img, fit)
+        A = solve_static(spec, fit, movie)
+        B = solve_static(img, fit, movie)
     except Exception as ex:  # noqa
         res.fail("oracle", f"inference raised {type(ex).__name__}: {str(ex)[:80]}", replay)
         return
+    if movie:
+        res.count("static inference on the first frame of a movie with cm=True")
     res.case((tuple(tuple(x[1:]) for x in spec["vertices"][:5]), len(spec["cells"]), tuple(sorted(tr.items())), fit), nontrivial=len(A["tension"]) >= 6)
     res.count(f"fit={fit}")
     for k in tr:
@@ -100,9 +109,12 @@ def check_static(res, spec, tr, fit, label, analytic):
     cond = max(A["cond"], B["cond"])
     # rounding of the transformed coordinates: each is off by <= ulp/2, which turns a segment of length L by <= 2 sqrt(2) ulp / L
     eps_dir = 0.0
+    posA = {v[0]: (v[1], v[2]) for v in spec["vertices"]}
+    maxabs_all = 0.0
     for sp in (spec, img):
         pos = {v[0]: (v[1], v[2]) for v in sp["vertices"]}
         maxabs = max(max(abs(x), abs(y)) for x, y in pos.values())
+        maxabs_all = max(maxabs_all, maxabs)
         lmin = min(math.hypot(pos[e[1]][0] - pos[e[2]][0], pos[e[1]][1] - pos[e[2]][1]) for e in sp["edges"])
         eps_dir += 8 * 2.3e-16 * maxabs / lmin
     amp = 1.0 if two_point else 1e3          # a circle fit amplifies point perturbations
@@ -144,12 +156,18 @@ def check_static(res, spec, tr, fit, label, analytic):
             cw = max(cw, d0, d1)
             fro2 += d0 * d0 + d1 * d1
             # accuracy of the circle fit in either pose (c02.fit_delta; exact arcs / lines only) plus coordinate rounding
+            lsq_term = 0.0
+            if fit == "dlite" and len(e) > 2:
+                # leastsq stops on a relative change of the unknowns (xtol 1.49e-8): the fitted centre of a tissue sitting at coordinates of
+                # size |c| is only good to ~1.5e-8 |c|, which turns the tangent by at most that over the radius (>= half the chord)
+                chord = math.hypot(posA[e[0]][0] - posA[e[-1]][0], posA[e[0]][1] - posA[e[-1]][1]) * min(1.0, float(tr.get("scale", 1.0)))
+                lsq_term = 6e-8 * maxabs_all / max(chord, 1e-300)
             if len(e) == 2 or fit == "taubinSVD" and analytic is not False:
                 ctol_e = 1e-9 + amp * eps_dir
             elif analytic is not False and frozenset((e[0], e[-1])) in theta_of:
-                ctol_e = 2 * fit_delta(fit, len(e), theta_of[frozenset((e[0], e[-1]))], straight) + amp * eps_dir
+                ctol_e = 2 * fit_delta(fit, len(e), theta_of[frozenset((e[0], e[-1]))], straight) + amp * eps_dir + lsq_term
             else:
-                ctol_e = (1e-9 + amp * eps_dir) if fit == "taubinSVD" else 2e-3
+                ctol_e = (1e-9 + amp * eps_dir) if fit == "taubinSVD" else 2e-3 + lsq_term
             cexcess = max(cexcess, max(d0, d1) - ctol_e)
     # a solution of a (constrained) least-squares problem moves by at most |E| |x| / smin + |E| |r| / smin^2 (first order) when its
     # matrix moves by E; E is the measured change of the coefficient pairs (bounded entry by entry above)
@@ -168,8 +186,13 @@ def check_static(res, spec, tr, fit, label, analytic):
         msgs.append(f"tension of interface {who} changes by {worst:.3g} under {tr} (tolerance {tol:.2g})")
     if pw > 100 * tol:
         msgs.append(f"pressures change by {pw:.3g} (relative) under {tr}")
+    # known findings D1 (per-component sign forcing) and D3 (multiplier column of ones) can only explain a change under a rotation or a
+    # reflection: both rules see the same signs and the same column after a translation or a positive scaling
+    turned = bool(tr.get("theta")) or bool(tr.get("reflect"))
     for m in msgs[:2]:
-        if nd1:
+        if not turned:
+            res.fail("oracle", m, replay)
+        elif nd1:
             res.fail("oracle", m + f"; {nd1} interface end(s) with tangent and first segment in different quadrants in one of the two poses",
                      replay, tag="D1-tangent-sign-forcing")
         elif lam > 1e-9 and "coefficient" not in m:
@@ -257,7 +280,9 @@ def transforms(rng, spec):
             {"theta": float(rng.uniform(0, 2 * math.pi))},
             {"reflect": True, "theta": float(rng.uniform(0, 2 * math.pi))},
             {"scale": float(10 ** rng.uniform(-3, 3))},
-            {"scale": float(10 ** rng.uniform(-2, 2)), "theta": float(rng.uniform(0, 2 * math.pi)), "tx": float(rng.uniform(-1, 1)) * ext, "ty": 0.0}]
+            {"scale": float(10 ** rng.uniform(-2, 2)), "theta": float(rng.uniform(0, 2 * math.pi)), "tx": float(rng.uniform(-1, 1)) * ext, "ty": 0.0},
+            # the same tissue moved by a few extents, both poses inferred as the first frame of a two-frame movie with cm=True
+            {"tx": 3.0 * ext * float(rng.uniform(-1, 1)), "ty": 3.0 * ext * float(rng.uniform(-1, 1)), "movie": True}]
 
 
 def run(res, tier, seed):
